@@ -141,7 +141,18 @@ def script_source(named_items):
              "fn helper_user(a: String, b: List[String], c: Rec) -> bool { let d = c; a == \"x\" && b == [a] && d.x == 1 }"]
     for k, (name, item) in enumerate(named_items):
         lines.append(item_source(item, name, k))
-    return "\n".join(lines) + "\n"
+    text = "\n".join(lines) + "\n"
+    # The script-only record is given the name of a built-in leaf type in some scripts (a namesake declared
+    # by the script is a different type, pkg.<Name>, and must never be confused with the built-in of that
+    # name) - only when the script does not use that built-in itself.
+    import re as _re
+    used = set(_re.findall(r"\b(Asn|Prefix|IpAddr)\b", text)) | ({"Asn"} if "AS0" in text else set())
+    if "1.1.1.1" in text or "1.0.0.0/8" in text:
+        used |= {"IpAddr", "Prefix"}
+    cands = [n for n in ("Asn", "Prefix", "IpAddr") if n not in used]
+    if cands and len(named_items) % 2 == 0:
+        text = _re.sub(r"\bRec\b", cands[len(named_items) % len(cands)], text)
+    return text
 
 
 def symbols(t, out):
